@@ -334,7 +334,7 @@ Lemma emits_ip m name (a : option bytes) t :
   emits m (fun l => f_ip l name (match a with Some _ => Some t | None => None end))
           (fld name (match a with Some _ => t | None => NIL end)).
 Proof.
-  unfold f_ip. apply emits_field. destruct a; [apply emits_appendto|apply emits_copy].
+  unfold f_ip. apply emits_field. destruct a; apply emits_copy.
 Qed.
 
 Lemma write_at_over b i A B :
@@ -373,7 +373,7 @@ Proof.
     rewrite L7 in F. unfold wf in W.
     destruct (Nat.ltb_spec BUFSZ (index l)) as [H|H]; [lia|].
     destruct (Nat.ltb_spec BUFSZ (index l + 6)) as [H6|H6]; [lia|].
-    rewrite Nat.min_l by lia.
+    rewrite !Nat.min_l by lia.
     change (firstn 7 [32; 32; 32; 32; 32; 32; 58]) with [32; 32; 32; 32; 32; 32; 58].
     eexists; split; [reflexivity|].
     rewrite write_at_over.
